@@ -346,7 +346,7 @@ pub fn run_prop(def: &PropDef, args: &RunArgs) -> (Part, i32) {
         cases: args.cases,
         rng_seed: RngSeed::Fixed(seed),
         failure_persistence: None,
-        max_shrink_iters: if def.is_rt() { 60 } else { 3000 },
+        max_shrink_iters: if def.is_rt() || def.id == "C20" { 40 } else { 3000 },
         max_global_rejects: 0,
         ..Config::default()
     });
